@@ -426,7 +426,7 @@ BlobExpected(i, cfg) ==
               ELSE MergeBlobs(blobs, gc, bf, rew, newF, DiffOf(dropped))
        ELSE IF r.info.choice[1] = 3 THEN
            LET ids == ChoiceIds(r)
-               links == UNION {Range(ById(prs.tbls, t).links) : t \in ids}
+               links == UNION {{<<x[1], x[2], x[3], x[4], t>> : x \in Range(ById(prs.tbls, t).links)} : t \in ids}
            IN IF post.vid = svp.vid THEN same
               ELSE DropBlobs(blobs, gc, bf, links, ids # {})
        ELSE same
